@@ -29,6 +29,15 @@ REMOTE_LINE_END = " =========\n"
 REMOTE_LINE = "{0}({{}}){1}".format(REMOTE_LINE_START, REMOTE_LINE_END)
 
 
+def _safe_repr(obj):
+    # the repr of an exception's argument or attribute (e.g. AttributeError.obj) may itself fail;
+    # that must not turn an exception response into a lost connection
+    try:
+        return repr(obj)
+    except Exception:
+        return "<unprintable %s object>" % (type(obj).__name__,)
+
+
 def dump(typ, val, tb, include_local_traceback, include_local_version):
     """Dumps the given exceptions info, as returned by ``sys.exc_info()``
 
@@ -63,7 +72,7 @@ def dump(typ, val, tb, include_local_traceback, include_local_version):
                 if brine.dumpable(a):
                     args.append(a)
                 else:
-                    args.append(repr(a))
+                    args.append(_safe_repr(a))
         elif name.startswith("_") or name in ignored_attrs:
             continue
         else:
@@ -73,7 +82,7 @@ def dump(typ, val, tb, include_local_traceback, include_local_version):
                 # skip this attr. see issue #108
                 continue
             if not brine.dumpable(attrval):
-                attrval = repr(attrval)
+                attrval = _safe_repr(attrval)
             attrs.append((name, attrval))
     if include_local_version:
         attrs.append(("_remote_version", version.version_string))
